@@ -2,6 +2,7 @@ package verifsim
 
 import (
 	"context"
+	"encoding/json"
 	"fmt"
 	"math/big"
 	"runtime/debug"
@@ -101,6 +102,7 @@ type ledgerInst struct {
 	running     bool
 	runnerDead  bool
 	writeFailed bool
+	writeCalls  int
 	runnerTask  *Task
 }
 
@@ -212,6 +214,13 @@ func newSim(in *Input, target string, maxSteps int) *Sim {
 	for i := 0; i < nl; i++ {
 		s.media = append(s.media, newMedium(ledgerName(i)))
 		s.chain = append(s.chain, &chainState{})
+	}
+	if in.Cfg.TxIDBase != "" {
+		if base, ok := new(big.Int).SetString(in.Cfg.TxIDBase, 10); ok {
+			for i, m := range s.media {
+				s.seedHistory(i, m, base)
+			}
+		}
 	}
 	for _, f := range in.SFaults {
 		if f.Ledger >= 0 && f.Ledger < nl && f.Nth > 0 {
@@ -732,6 +741,12 @@ func (l *lockerWrap) Lock(ctx context.Context, accounts command.Accounts) (comma
 		op.lockReqStep = l.sim.sched.step
 		l.sim.sched.Logf("  lock-req %s R=%v W=%v", op.Name, op.lockRead, op.lockWrite)
 	}
+	// The engine derives the read set from a Go map (arbitrary order). A correct locker is
+	// insensitive to that order; a broken one need not be, so the order is fixed here to keep
+	// every run a pure function of its inputs (any fixed order is a legal behaviour).
+	accounts = command.Accounts{Read: append([]string(nil), accounts.Read...), Write: append([]string(nil), accounts.Write...)}
+	sort.Strings(accounts.Read)
+	sort.Strings(accounts.Write)
 	unlock, err := l.inner.Lock(ctx, accounts)
 	if err != nil {
 		return nil, err
@@ -836,12 +851,22 @@ func (r *OpRecord) outcome() string {
 func (s *Sim) resolveOp(rec *OpRecord, li *ledgerInst) {
 	op := rec.Op
 	ntx := len(li.m.Txs)
+	txAt := func(k int) *big.Int {
+		k = mod(k, ntx+1)
+		if k < ntx {
+			return new(big.Int).Set(li.m.Txs[k].ID)
+		}
+		if ntx == 0 {
+			return big.NewInt(0)
+		}
+		return new(big.Int).Add(li.m.Txs[ntx-1].ID, big.NewInt(1)) // does not exist (yet)
+	}
 	switch op.Kind {
 	case "revert":
-		rec.TargetTx = big.NewInt(int64(mod(op.Target, ntx+1)))
+		rec.TargetTx = txAt(op.Target)
 	case "setmeta", "delmeta":
 		if op.OnTx {
-			rec.TargetTx = big.NewInt(int64(mod(op.Target, ntx+1)))
+			rec.TargetTx = txAt(op.Target)
 		} else {
 			k := mod(op.Target, s.in.Cfg.Accounts+1)
 			if k == s.in.Cfg.Accounts {
@@ -929,6 +954,30 @@ func (s *Sim) execOp(ctx context.Context, rec *OpRecord, li *ledgerInst) {
 	default:
 		rec.Err = fmt.Errorf("unknown op kind %q", op.Kind)
 	}
+}
+
+// seedHistory puts one earlier transaction into a ledger's durable medium, built with the
+// repository's own constructors and chained as the first entry, as if an earlier process
+// had written it.
+func (s *Sim) seedHistory(li int, m *Medium, base *big.Int) {
+	at, _ := ledger.ParseTime("1999-12-31T23:59:59Z")
+	tx := ledger.NewTransaction().WithID(new(big.Int).Set(base)).WithDate(at).
+		WithPostings(ledger.NewPosting("world", "seed", "USD", big.NewInt(1))).WithMetadata(metadata.Metadata{"req": "seed"})
+	cl := ledger.NewTransactionLogWithDate(tx, map[string]metadata.Metadata{}, at).ChainLog(nil)
+	raw, _ := json.Marshal(cl.Data)
+	norm, generic, _ := normaliseJSON(raw)
+	r := &Row{ID: big.NewInt(0), Type: cl.Type.String(), Hash: cl.Hash, Date: cl.Date.Time.UTC(), Data: norm, Orig: cl, Gen: -1, Batch: -1}
+	m.Rows = append(m.Rows, r)
+	_ = m.project(r, generic, 0)
+	c := s.chain[li]
+	c.init()
+	e, _ := decodeEntry(0, r)
+	c.entries = append(c.entries, e)
+	c.byMarker[e.Marker] = append(c.byMarker[e.Marker], e)
+	c.byMatch[e.MatchKey] = append(c.byMatch[e.MatchKey], e)
+	c.byTxID[e.Tx.ID.String()] = e
+	applyPostings(c.model, e.Tx.Postings)
+	c.nextTx = new(big.Int).Add(base, big.NewInt(1)).Int64()
 }
 
 func (s *Sim) stateHash() string {
